@@ -126,9 +126,9 @@ def classify_kani(res, err, ob):
 def run_kani(scr, obs, jobs, logdir):
     """Run a list of Kani obligations in ONE cargo-kani invocation per timeout class."""
     results = {}
-    groups = {}
-    for ob in obs:
-        groups.setdefault(ob["cap"], []).append(ob)
+    # ONE cargo-kani invocation for all obligations of the run (per-harness timeout = the largest cap): the
+    # obligations run in parallel instead of cap class after cap class
+    groups = {max(ob["cap"] for ob in obs): list(obs)} if obs else {}
     # one Kani batch at a time machine-wide (CBMC needs 1-8 GB per obligation; 62 GB, no swap)
     os.makedirs(WORK, exist_ok=True)
     glock = open(os.path.join(WORK, ".kani-global.lock"), "w")
@@ -141,9 +141,29 @@ def run_kani(scr, obs, jobs, logdir):
 
 def _run_kani_locked(scr, groups, jobs, logdir, results):
     for cap, group in sorted(groups.items()):
-        mem = max(ob.get("mem_gb", 2) for ob in group)
-        jobs_g = max(1, min(jobs, int(MEM_BUDGET_GB // mem)))
-        outjson = os.path.join(logdir, "kani-%d.json" % cap)
+        heavy = [ob for ob in group if ob.get("mem_gb", 2) >= 6]
+        light = [ob for ob in group if ob.get("mem_gb", 2) < 6]
+        plan = []
+        light_jobs = min(len(light), 8) if heavy else min(len(light), jobs)
+        light_mem = sum(sorted((ob.get("mem_gb", 2) for ob in light), reverse=True)[:light_jobs]) if light else 0
+        if light:
+            if not heavy:
+                light_jobs = max(1, min(jobs, int(MEM_BUDGET_GB // max(ob.get("mem_gb", 2) for ob in light))))
+            plan.append(("light", light, light_jobs))
+        if heavy:
+            hm = max(ob.get("mem_gb", 2) for ob in heavy)
+            plan.append(("heavy", heavy, max(1, min(jobs, int((MEM_BUDGET_GB - light_mem) // hm)))))
+        with ThreadPoolExecutor(max_workers=2) as ex:
+            futs = [ex.submit(_kani_invoke, scr, sub, cap, j, logdir, tag) for (tag, sub, j) in plan]
+            for f in futs:
+                results.update(f.result())
+    return results
+
+
+def _kani_invoke(scr, group, cap, jobs_g, logdir, tag):
+    results = {}
+    if True:
+        outjson = os.path.join(logdir, "kani-%s.json" % tag)
         if os.path.exists(outjson):
             os.unlink(outjson)
         cmd = ["cargo", "kani"] + KANI_FLAGS + ["--target-dir", kani_target(),
@@ -151,9 +171,9 @@ def _run_kani_locked(scr, groups, jobs, logdir, results):
                "--output-format", "terse", "--export-json", outjson, "--exact"]
         for ob in group:
             cmd += ["--harness", ob["h"]]
-        log("kani: %d obligation(s), cap %ds" % (len(group), cap))
+        log("kani[%s]: %d obligation(s), %d in parallel, cap %ds" % (tag, len(group), min(jobs_g, len(group)), cap))
         rc, out, secs = sh(cmd, cwd=scr.repo, timeout=cap * (1 + len(group) // max(1, jobs_g)) + 600,
-                           out=os.path.join(logdir, "kani-%d.log" % cap))
+                           out=os.path.join(logdir, "kani-%s.log" % tag))
         data = None
         if os.path.exists(outjson):
             try:
@@ -164,7 +184,7 @@ def _run_kani_locked(scr, groups, jobs, logdir, results):
             why = "cargo kani produced no result file (rc=%d): %s" % (rc, tail_err(out))
             for ob in group:
                 results[ob["h"]] = dict(status="undecided", detail=why, secs=0.0, solver="-")
-            continue
+            return results
         by = {r["harness_id"]: r for r in data["verification_results"]["results"]}
         errs = {e["harness_id"]: e for e in data.get("error_details", [])}
         stats = {c["harness_id"]: c for c in data.get("cbmc", [])}
